@@ -95,6 +95,7 @@ Definition map_body (conv : ty -> pv -> res pv) k kt vt x :=
        (fun rs => construct_map rt k rs))).
 Definition tuple_body (conv : ty -> pv -> res pv) ts x :=
   bind (load rt x) (fun d => bind (itervalues rt d) (fun vs =>
+  if Nat.ltb (length vs) (length ts) then Raise EValue else
   bind (mapM (fun tv => conv (fst tv) (snd tv)) (zip_trunc ts vs)) (fun rs => Ok (PSeq KTuple rs)))).
 Definition named_body (conv : ty -> pv -> res pv) c x :=
   match E c with
@@ -149,7 +150,8 @@ Lemma tuple_body_mono (c1 c2 : ty -> pv -> res pv) ts x :
   done (tuple_body c1 ts x) = true -> tuple_body c2 ts x = tuple_body c1 ts x.
 Proof. intros Hc. unfold tuple_body.
   destruct (load rt x) as [d|e| |]; cbn [bind done]; try reflexivity.
-  destruct (itervalues rt d) as [vs|e| |]; cbn [bind done]; try reflexivity. intros Hd.
+  destruct (itervalues rt d) as [vs|e| |]; cbn [bind done]; try reflexivity.
+  destruct (Nat.ltb (length vs) (length ts)); [reflexivity|]. intros Hd.
   rewrite (mapM_mono (fun tv => c1 (fst tv) (snd tv)) (fun tv => c2 (fst tv) (snd tv)));
     [reflexivity|intros tv _ Htv; apply Hc; exact Htv|].
   destruct (bind_done _ _ Hd) as [[rs [Hrs _]]|[e He]]; [rewrite Hrs|rewrite He]; reflexivity. Qed.
